@@ -193,8 +193,9 @@ func (e *MetaCDC) ReloadTask() {
 		newCollectionNames := GetCollectionNamesFromTaskInfo(taskInfo)
 		e.collectionNames.data[uKey] = append(e.collectionNames.data[uKey], newCollectionNames...)
 		e.collectionNames.excludeData[uKey] = append(e.collectionNames.excludeData[uKey], taskInfo.ExcludeCollections...)
-		e.collectionNames.excludeData[uKey] = lo.Uniq(e.collectionNames.excludeData[uKey])
-		e.collectionNames.extraInfos[uKey] = taskInfo.ExtraInfo
+		if taskInfo.ExtraInfo.EnableUserRole {
+			e.collectionNames.extraInfos[uKey] = taskInfo.ExtraInfo
+		}
 		e.cdcTasks.Lock()
 		e.cdcTasks.data[taskInfo.TaskID] = taskInfo
 		e.cdcTasks.Unlock()
@@ -326,6 +327,18 @@ func matchCollectionName(sampleCollection, targetCollection string) (bool, bool)
 		db1 == cdcreader.AllDatabase || collection1 == cdcreader.AllCollection
 }
 
+// withoutOnce removes one occurrence of every element of removed from list: the exclude names of a target are kept
+// once per task that excludes them, so giving back the names of one task must not drop those of the other tasks.
+func withoutOnce(list []string, removed []string) []string {
+	result := append([]string{}, list...)
+	for _, r := range removed {
+		if i := lo.IndexOf(result, r); i >= 0 {
+			result = append(result[:i], result[i+1:]...)
+		}
+	}
+	return result
+}
+
 func (e *MetaCDC) checkDuplicateCollection(uKey string,
 	newCollectionNames []string,
 	extraInfo model.ExtraInfo,
@@ -444,12 +457,18 @@ func (e *MetaCDC) Create(req *request.CreateRequest) (resp *request.CreateRespon
 	revertCollectionNames := func() {
 		e.collectionNames.Lock()
 		defer e.collectionNames.Unlock()
-		e.collectionNames.excludeData[uKey] = lo.Without(e.collectionNames.excludeData[uKey], excludeCollectionNames...)
+		e.collectionNames.excludeData[uKey] = withoutOnce(e.collectionNames.excludeData[uKey], excludeCollectionNames)
 		e.collectionNames.data[uKey] = lo.Without(e.collectionNames.data[uKey], newCollectionNames...)
+		if req.ExtraInfo.EnableUserRole {
+			// the request passed the duplicate check, so it was this request that took the user role of the target
+			e.collectionNames.extraInfos[uKey] = model.ExtraInfo{}
+		}
 	}
 
+	// once the task record has been stored, giving the names back is the job of the delete method
+	taskStored := false
 	defer func() {
-		if err != nil {
+		if err != nil && !taskStored {
 			revertCollectionNames()
 		}
 	}()
@@ -485,7 +504,6 @@ func (e *MetaCDC) Create(req *request.CreateRequest) (resp *request.CreateRespon
 			for vchannel, collectionPosition := range collectionInfo.Positions {
 				channelInfo, err := util.ParseVChannel(vchannel)
 				if err != nil {
-					revertCollectionNames()
 					return servererror.NewClientError(fmt.Sprintf("the vchannel is invalid, %s, err: %s", vchannel, err.Error()))
 				}
 				decodePosition, err := util.Base64DecodeMsgPosition(collectionPosition)
@@ -508,7 +526,6 @@ func (e *MetaCDC) Create(req *request.CreateRequest) (resp *request.CreateRespon
 					collectionID = channelInfo.CollectionID
 				}
 				if collectionID != channelInfo.CollectionID {
-					revertCollectionNames()
 					return servererror.NewClientError("the channel position info should be in the same collection")
 				}
 			}
@@ -572,6 +589,7 @@ func (e *MetaCDC) Create(req *request.CreateRequest) (resp *request.CreateRespon
 	if err != nil {
 		return nil, servererror.NewServerError(errors.WithMessage(err, "fail to put the task info to etcd"))
 	}
+	taskStored = true
 	metrics.TaskNumVec.Add(info.TaskID, info.State)
 	metrics.TaskStateVec.WithLabelValues(info.TaskID).Set(float64(info.State))
 	e.cdcTasks.Lock()
@@ -1438,8 +1456,12 @@ func (e *MetaCDC) delete(taskID string) error {
 	uKey := getTaskUniqueIDFromInfo(info)
 	collectionNames := GetCollectionNamesFromTaskInfo(info)
 	e.collectionNames.Lock()
-	e.collectionNames.excludeData[uKey] = lo.Without(e.collectionNames.excludeData[uKey], info.ExcludeCollections...)
+	e.collectionNames.excludeData[uKey] = withoutOnce(e.collectionNames.excludeData[uKey], info.ExcludeCollections)
 	e.collectionNames.data[uKey] = lo.Without(e.collectionNames.data[uKey], collectionNames...)
+	if info.ExtraInfo.EnableUserRole {
+		// at most one task of a target has the user role
+		e.collectionNames.extraInfos[uKey] = model.ExtraInfo{}
+	}
 	e.collectionNames.Unlock()
 
 	e.cdcTasks.Lock()
